@@ -33,12 +33,13 @@ VARIABLES
   val,       \* input id -> [st, owner, counted]
   outv,      \* output id -> [st, owner, inp]
   panicSeen, \* a scripted panic was raised in this run
+  panicked,  \* threads on which a scripted panic was raised in this round
   outcome,
   bad        \* set of broken rule names
 
 vars == <<l, sc, lp, Tn, size, round, genN, callN, dropOutN, dropInN, cntN,
           cleared, started, ended, snapped, win, val, outv, panicSeen,
-          outcome, bad>>
+          panicked, outcome, bad>>
 
 Is(e) == l <= Len(Rec) /\ Rec[l].ev = e /\ l' = l + 1
 R == Rec[l]
@@ -63,10 +64,11 @@ FreshRound ==
   /\ cntN' = [t \in Tid |-> [k \in 0..3 |-> 0]]
   /\ cleared' = No /\ started' = No /\ ended' = No /\ snapped' = No
   /\ win' = [t \in Tid |-> ZeroTally]
+  /\ panicked' = {}
 
 RoundVarsUnchanged ==
   UNCHANGED <<genN, callN, dropOutN, dropInN, cntN, cleared, started, ended,
-              snapped, win>>
+              snapped, win, panicked>>
 
 Init ==
   /\ l = 1 /\ sc = [entry |-> "none"] /\ lp = "none" /\ Tn = 1 /\ size = 0
@@ -75,6 +77,7 @@ Init ==
   /\ cntN = [t \in Tid |-> [k \in 0..3 |-> 0]]
   /\ cleared = No /\ started = No /\ ended = No /\ snapped = No
   /\ win = [t \in Tid |-> ZeroTally]
+  /\ panicked = {}
   /\ val = <<>> /\ outv = <<>> /\ panicSeen = FALSE /\ outcome = "running"
   /\ bad = {}
 
@@ -126,12 +129,12 @@ TrTsStart ==
      /\ started' = [started EXCEPT ![t] = TRUE]
      /\ win' = [win EXCEPT ![t] = ZeroTally]
      /\ bad' = bad
-          \cup Flag(\E u \in Threads : (HasInputs /\ genN[u] < size) \/ ~cleared[u],
+          \cup Flag(\E u \in Threads \ panicked : (HasInputs /\ genN[u] < size) \/ ~cleared[u],
                     "C08:start_before_all_generated_and_cleared")
           \cup Flag(started[t], "C02:second_start_in_round")
           \cup Flag(t \notin Threads, "C01:foreign_thread")
   /\ UNCHANGED <<sc, lp, Tn, size, round, genN, callN, dropOutN, dropInN, cntN,
-                 cleared, ended, snapped, val, outv, panicSeen, outcome>>
+                 cleared, ended, snapped, val, outv, panicSeen, outcome, panicked>>
 
 TrTsEnd ==
   /\ Is("ts") /\ lp = "run" /\ R.kind = "end"
@@ -139,7 +142,7 @@ TrTsEnd ==
      /\ ended' = [ended EXCEPT ![t] = TRUE]
      /\ bad' = bad \cup Flag(~started[t] \/ ended[t], "C02:end_without_start")
   /\ UNCHANGED <<sc, lp, Tn, size, round, genN, callN, dropOutN, dropInN, cntN,
-                 cleared, started, snapped, win, val, outv, panicSeen, outcome>>
+                 cleared, started, snapped, win, val, outv, panicSeen, outcome, panicked>>
 
 TrGen ==
   /\ Is("gen")
@@ -153,7 +156,7 @@ TrGen ==
           \cup Flag(R.id # 0 /\ R.id \in DOMAIN val, "C01:duplicate_input_identity")
           \cup Flag(IsLocal /\ t # 0, "C01:local_off_caller")
   /\ UNCHANGED <<sc, lp, Tn, size, round, callN, dropOutN, dropInN, cntN,
-                 cleared, started, ended, snapped, win, outv, panicSeen, outcome>>
+                 cleared, started, ended, snapped, win, outv, panicSeen, outcome, panicked>>
 
 TrCount ==
   /\ Is("count")
@@ -170,7 +173,7 @@ TrCount ==
           \cup Flag(R.id = 0 /\ cntN[t][R.kind] + 1 > genN[t],
                     "C01:input_not_shown_once_to_counter")
   /\ UNCHANGED <<sc, lp, Tn, size, round, genN, callN, dropOutN, dropInN,
-                 cleared, started, ended, snapped, win, outv, panicSeen, outcome>>
+                 cleared, started, ended, snapped, win, outv, panicSeen, outcome, panicked>>
 
 TrCall ==
   /\ Is("call")
@@ -194,7 +197,7 @@ TrCall ==
           \cup Flag(IsLocal /\ t # 0, "C01:local_off_caller")
           \cup Flag(lp = "run" /\ t \notin Threads, "C01:foreign_thread")
   /\ UNCHANGED <<sc, lp, Tn, size, round, genN, dropOutN, dropInN, cntN,
-                 cleared, started, ended, snapped, win, panicSeen, outcome>>
+                 cleared, started, ended, snapped, win, panicSeen, outcome, panicked>>
 
 TrCallEnd ==
   /\ Is("call_end")
@@ -210,7 +213,7 @@ TrAllocOp ==
      /\ bad' = bad \cup Flag(InWindow(t) /\ R.site # "call",
                              "C02:foreign_allocation_inside_timed_section")
   /\ UNCHANGED <<sc, lp, Tn, size, round, genN, callN, dropOutN, dropInN, cntN,
-                 cleared, started, ended, snapped, val, outv, panicSeen, outcome>>
+                 cleared, started, ended, snapped, val, outv, panicSeen, outcome, panicked>>
 
 TrTallyClear ==
   /\ Is("tally_clear")
@@ -219,7 +222,7 @@ TrTallyClear ==
      /\ bad' = bad \cup Flag(InWindow(t), "C02:tally_cleared_inside_timed_section")
                    \cup Flag(HasInputs /\ genN[t] < size, "C02:tally_cleared_before_generation_finished")
   /\ UNCHANGED <<sc, lp, Tn, size, round, genN, callN, dropOutN, dropInN, cntN,
-                 started, ended, snapped, win, val, outv, panicSeen, outcome>>
+                 started, ended, snapped, win, val, outv, panicSeen, outcome, panicked>>
 
 TrTallySnapshot ==
   /\ Is("tally_snapshot")
@@ -229,11 +232,11 @@ TrTallySnapshot ==
           \cup Flag(~ended[t], "C02:snapshot_before_end_timestamp")
           \cup Flag(Proj(R.info) # win[t], "C02:sample_tally_differs_from_timed_operations")
   /\ UNCHANGED <<sc, lp, Tn, size, round, genN, callN, dropOutN, dropInN, cntN,
-                 cleared, started, ended, win, val, outv, panicSeen, outcome>>
+                 cleared, started, ended, win, val, outv, panicSeen, outcome, panicked>>
 
 DropCommon(t) ==
   Flag(InWindow(t), "C02:drop_inside_timed_section")
-  \cup Flag(lp = "run" /\ started[t] /\ \E u \in Threads : ~ended[u],
+  \cup Flag(lp = "run" /\ started[t] /\ \E u \in Threads \ panicked : ~ended[u],
             "C08:drop_before_all_threads_ended")
   \cup Flag(lp = "run" /\ ~started[t], "C01:drop_before_timed_section")
 
@@ -251,7 +254,7 @@ TrDropOut ==
           \cup Flag(R.id # 0 /\ o.st = "live" /\ o.owner # t, "C01:output_dropped_on_other_thread")
           \cup Flag(R.id = 0 /\ dropOutN[t] + 1 > callN[t], "C01:output_dropped_twice")
   /\ UNCHANGED <<sc, lp, Tn, size, round, genN, callN, dropInN, cntN, cleared,
-                 started, ended, snapped, win, val, panicSeen, outcome>>
+                 started, ended, snapped, win, val, panicSeen, outcome, panicked>>
 
 OutputOf(id) == {o \in DOMAIN outv : outv[o].inp = id}
 
@@ -275,7 +278,7 @@ TrDropIn ==
                     "C01:input_dropped_before_its_output")
           \cup Flag(R.id = 0 /\ dropInN[t] + 1 > callN[t], "C01:input_dropped_twice")
   /\ UNCHANGED <<sc, lp, Tn, size, round, genN, callN, dropOutN, cntN, cleared,
-                 started, ended, snapped, win, outv, panicSeen, outcome>>
+                 started, ended, snapped, win, outv, panicSeen, outcome, panicked>>
 
 \* Obligations at the end of a round in which nothing panicked.
 RoundObligations ==
@@ -313,10 +316,14 @@ TrTestBreak ==
   /\ val' = <<>> /\ outv' = <<>>
   /\ UNCHANGED <<sc, lp, Tn, size, panicSeen, outcome>>
 
+\* A thread on which user code panicked takes no further part in the sample:
+\* the ordering clauses of C08 speak about the threads still running it.
 TrUserPanic ==
   /\ Is("user_panic") /\ panicSeen' = TRUE
+  /\ panicked' = panicked \cup {R.tid}
   /\ UNCHANGED <<sc, lp, Tn, size, round, val, outv, outcome, bad>>
-  /\ RoundVarsUnchanged
+  /\ UNCHANGED <<genN, callN, dropOutN, dropInN, cntN, cleared, started, ended,
+                 snapped, win>>
 
 TrBenchReturn ==
   /\ Is("bench_return") /\ lp' = "done"
